@@ -320,6 +320,10 @@ func runGeneration(ctx context.Context, c *Cluster, r *dkgRun) {
 			r.LostE = append(r.LostE, m.To)
 		case "duplicate":
 			m.Duplicate = true
+		case "replay-altered":
+			// the genuine message is delivered, then a second copy of it with the share replaced; the
+			// receiver must refuse the copy and keep what it held (for the model: the genuine message)
+			m.ReplayAltered = true
 		case "lost":
 			m.Drop = true
 			r.Swaps = append(r.Swaps, fmt.Sprintf("(%d%%N, %d%%N, None)", m.From, m.To))
@@ -724,7 +728,10 @@ func cmdDkg(prop string, args []string) int {
 				swaps := int(n) * (int(n) - 1) / 2
 				for pos := 1; pos <= swaps; pos++ {
 					for _, dir := range []string{"request", "reply"} {
-						for _, k := range []string{"lost", "share-replaced", "share-other-id", "vvec-altered", "vvec-short", "vvec-long", "vvec-long-plain", "duplicate"} {
+						for _, k := range []string{"lost", "share-replaced", "share-other-id", "vvec-altered", "vvec-short", "vvec-long", "vvec-long-plain", "duplicate", "replay-altered"} {
+							if k == "replay-altered" && dir == "reply" {
+								continue
+							}
 							faults = append(faults, dkgFault{Kind: k, Pos: pos, Dir: dir})
 						}
 					}
@@ -742,7 +749,7 @@ func cmdDkg(prop string, args []string) int {
 						stats["fault.not-reached"]++
 					}
 					switch {
-					case f.Kind == "duplicate" || !r.Applied:
+					case f.Kind == "duplicate" || f.Kind == "replay-altered" || !r.Applied:
 						// a duplicate delivery is harmless: the generation must still be a correct one
 						if r.Err != nil {
 							monFail = append(monFail, fmt.Sprintf("generation n=%d t=%d on %v with %s failed: %v", n, t, ids, f, r.Err))
